@@ -34,6 +34,10 @@ Decides:
  E exit sites      words right of `--` never reach the completion scanner (whose markers lead to process::exit): the pos_only test comes first (shared with C09).
  I doc invariants  tokens spliced from another Doc come with the payload they describe; write_str/write record byte lengths (the slicing of the
                    renderers relies on it); constant indexes into the slices handed to the completion renderers sit under a size test of that slice.
+ U units           a byte offset / byte length of a string (char_indices, str::len, find ..) never reaches the index of a Vec or slice of non-byte
+                   elements (tables laid out by character count: the edit-distance matrix of the "did you mean" helper) - forward taint per function family.
+ N short names     split_os_argument (and its utf8 twin) never return an empty Short name: every such path pushed onto `name` first (State::construct
+                   unwraps its first character).
 Does not decide: arithmetic facts the audit asserts (e.g. PADDING[..n]); user closures / FromStr assumed total."""
 import re, json
 from core import *
@@ -47,7 +51,7 @@ EXPLANATION = __doc__
 ASSUMPTIONS = ['user closures, FromStr impls and third-party Parser impls are total and pure',
                'std collections/iterators behave as documented; allocation failure and stack exhaustion on adversarially deep parser trees are out of scope',
                'audit/panic_audit.json reasons were established by reading the code (value-level arithmetic is asserted there, not re-derived)']
-FLOORS = {'P.census': 64, 'P.grow': 28, 'P.str-index': 12, 'P.nonempty': 6, 'P.dead-arm': 1, 'P.exit': 3, 'I.invariant': 3, 'T.loops': 83, 'T.recursion': 9, 'G.group-flag': 3, 'U.purity': 21, 'E.exit-sites': 2}
+FLOORS = {'P.units': 12, 'P.census': 64, 'P.grow': 28, 'P.str-index': 12, 'P.nonempty': 6, 'P.dead-arm': 1, 'P.exit': 3, 'I.invariant': 3, 'T.loops': 83, 'T.recursion': 9, 'G.group-flag': 3, 'U.purity': 21, 'E.exit-sites': 2}
 
 AUDIT = json.load(open(os.path.join(VERIF, 'audit/panic_audit.json')))['functions']
 
@@ -63,7 +67,9 @@ def run(ctx):
         ctx.guard(census, ctx, cfg, fs)
         ctx.guard(str_index, ctx, cfg, fs)
         ctx.guard(str_cut, ctx, cfg, fs)
+        ctx.guard(unit_agreement, ctx, cfg, fs)
         ctx.guard(nonempty, ctx, cfg, fs)
+        ctx.guard(short_name_nonempty, ctx, cfg, fs)
         ctx.guard(dead_arm, ctx, cfg, fs)
         ctx.guard(invariant, ctx, cfg, fs)
         if any(p.startswith('complete_shell::render_') for p in fs.bodies):
@@ -315,6 +321,65 @@ def str_index(ctx, cfg, fs):
         ctx.ob('P.str-index', '%s|slice|%s' % (short(s.fn), s.desc.split(',')[0][:50]), not bad,
                '%s: slice bounds of a str are byte offsets (%d bound(s)): %s' % (short(s.fn), n, bad or 'ok'), where=s.where(), cfg=cfg)
 
+def _mentions(rv):
+    out = set()
+    def op(o):
+        pl = op_place(o) if isinstance(o, list) else None
+        if pl: out.add(pl[0])
+    for k in ('op', 'a', 'b'):
+        if k in rv and isinstance(rv[k], list): op(rv[k])
+    for f in rv.get('fields', []): op(f)
+    if isinstance(rv.get('place'), list) and rv['place'] and isinstance(rv['place'][0], int): out.add(rv['place'][0])
+    return out
+
+def unit_agreement(ctx, cfg, fs):
+    """byte offsets and character counts are different units.  A BYTE offset (the position yielded by char_indices(), str::len(),
+    OsStr::len()) is a valid bound for slicing the same string, never an index into a table that was laid out by CHARACTER count
+    (any Vec / slice whose elements are not bytes): with non-ASCII text the offset runs past the table and the access panics.
+    Forward taint per function family: the results of those calls, through assignments, arithmetic and calls of local closures,
+    must not reach the index operand of Index / IndexMut / get / get_mut on a Vec or slice of non-u8 elements."""
+    SRC = [r'CharIndices.*Iterator>?::next$', r'str>?::len$', r'OsStr::len$', r'String::len$', r'str>?::find', r'str>?::rfind', r'MatchIndices.*::next$']
+    n = 0
+    roots = sorted({p.split('::{closure')[0] for p in fs.bodies if p.split('::{closure')[0] in fs.bodies})
+    for root in roots:
+        fam = fs.family(fs.bodies[root])
+        if not any(c.is_(*SRC) for x in fam for c in x.calls()):
+            continue
+        n += 1
+        hits = []
+        closure_tainted = False
+        for rnd in range(2):
+            for x in fam:
+                b = ctx.look(x) if not hasattr(x, 'stmts') else x
+                taint = set()
+                if closure_tainted and '{closure' in b.path:
+                    taint |= set(range(1, b.arg_count + 1))
+                changed = True
+                while changed:
+                    changed = False
+                    for i, k, st in b.stmts():
+                        if st['k'] == 'assign' and st['lhs'][0] not in taint and (_mentions(st['rv']) & taint):
+                            taint.add(st['lhs'][0]); changed = True
+                    for c in b.calls():
+                        args_t = any(a[0] != 'c' and a[1][0] in taint for a in c.args)
+                        if c.dest and c.dest[0] not in taint and (c.is_(*SRC) or (args_t and not c.is_(r'Index(Mut)?<.*>>::index(_mut)?$', r'::get(_mut)?$'))):
+                            if c.is_(*SRC) and not c.is_(r'Iterator>?::next$') or c.is_(r'CharIndices.*Iterator>?::next$', r'MatchIndices.*::next$') or args_t:
+                                taint.add(c.dest[0]); changed = True
+                for c in b.calls():
+                    if c.is_(r'Index(Mut)?<.*>>::index(_mut)?$', r'slice::<impl \[T\]>::get(_mut)?$', r'Vec<.*>::get') and len(c.args) >= 2:
+                        recv = b.local_ty(c.args[0][1][0]) if c.args[0][0] != 'c' else ''
+                        if re.search(r'\bstr\b|String|OsStr|\[u8\]|Vec<u8', recv):
+                            continue
+                        if c.args[1][0] != 'c' and c.args[1][1][0] in taint:
+                            hits.append('%s indexed by a value derived from a byte offset at %s' % (recv, b.where(c.bb)))
+                    # a tainted value handed to a closure of the family taints its parameters
+                    if any(a[0] != 'c' and a[1][0] in taint for a in c.args) and re.search(r'Fn(Mut|Once)?<.*>>::call', c.full):
+                        closure_tainted = True
+        ctx.ob('P.units', '%s:byte-offsets-do-not-index-tables' % short(root), not hits,
+               '%s obtains byte offsets / byte lengths of strings; none of them reaches the index of a Vec or slice of non-byte elements: %s' % (short(root), sorted(set(hits)) or 'ok'), where=fs.bodies[root].where() if hasattr(fs.bodies[root], 'where') else None, cfg=cfg)
+    if n == 0:
+        raise Broken('unit_agreement: no function obtains a byte offset (sources not recognised)')
+
 def str_cut(ctx, cfg, fs):
     """String::truncate / split_off / insert / remove / drain / replace_range / str::split_at take byte offsets that
     must be char boundaries: the offset must come from a length/offset of (a prefix of) a string, not from a constant
@@ -354,6 +419,55 @@ def classify_byte_index(b, op, bb, idx, depth=0):
             bad += classify_byte_index(b, r.extra['a'], r.site[0], r.site[1], depth + 1)
             bad += classify_byte_index(b, r.extra['b'], r.site[0], r.site[1], depth + 1)
     return bad
+
+def _recv_local(b, c):
+    pl = op_place(c.args[0]) if c.args else None
+    if pl is None: return None
+    if pl[0] in b.local_names and not pl[1]: return pl[0]
+    for (_, _, k, st) in reaching_defs(b, pl[0], c.bb, 'term'):
+        if k == 'assign' and st['rv']['k'] == 'ref' and not st['rv']['place'][1]:
+            return st['rv']['place'][0]
+    return None
+
+def short_name_nonempty(ctx, cfg, fs):
+    """State::construct takes the first character of every short name the splitter hands it (`short.chars().next().unwrap()`): the
+    splitter must not hand out an EMPTY short name.  Abstract walk of split_os_argument (and of its utf8-only fallback twin): every
+    path that returns Some((ArgType::Short, name, ..)) has pushed at least one element onto `name`."""
+    from absint import Walker, UNKNOWN
+    for rx in (r'^arg::split_os_argument$', r'^arg::split_os_argument_fallback$'):
+        cands = fs.find(rx, required=False)
+        if not cands:
+            continue
+        b = ctx.look(cands[0])
+        if not any(c.is_(r'(Vec::<.*>|String)::push$') for c in b.calls()):
+            continue        # the non-unix/windows shim that only forwards to the fallback
+        def model(wk, c, store, b=b):
+            # `name.is_empty()` / `name.len()` before anything was pushed: known to be empty
+            if b.local_names.get(_recv_local(b, c)) == 'name':
+                if c.is_(r'(Vec::<.*>|String)::push$'):
+                    store['#pushed'] = ('c', True)
+                elif c.is_(r'(Vec::<.*>|String|slice::<impl \[T\]>|str>?)::is_empty$') and '#pushed' not in store:
+                    return ('c', True)
+            return None
+        model.first = True
+        w = Walker(b, call_model=model, max_paths=6000, max_visits=2)
+        n = 0; bad = []
+        for pth in w.run():
+            r = pth.ret
+            if pth.end != 'return' or r is UNKNOWN or r[0] != 'agg' or r[2] != 'Some':
+                continue
+            t = r[3][0] if r[3] else UNKNOWN
+            ty = t[3][0] if (t is not UNKNOWN and t[0] == 'agg' and t[3]) else UNKNOWN
+            if ty is UNKNOWN:
+                bad.append('a return whose ArgType is not a constant'); continue
+            if (ty[2] if ty[0] == 'agg' else ty[1]) != 'Short':
+                continue
+            n += 1
+            pushed = [c for (blk, c) in pth.calls if c.is_(r'(Vec::<.*>|String)::push$') and b.local_names.get(_recv_local(b, c)) == 'name']
+            if not pushed:
+                bad.append('a path returning a Short name without a single push onto `name` (through blocks %s)' % pth.blocks[-6:])
+        ctx.ob('P.nonempty', '%s:short-name-nonempty' % short(b.path), n > 0 and not bad,
+               '%s: %d path(s) return a Short name; each has pushed at least one element onto the name: %s' % (short(b.path), n, sorted(set(bad))[:2] or 'ok'), where=b.where(), cfg=cfg)
 
 def nonempty(ctx, cfg, fs):
     # NamedArg aggregates: who builds them, with what
@@ -789,6 +903,14 @@ def group_flag(ctx, cfg, fs):
                 g = True
         good &= g
     ctx.ob('G.group-flag', 'append_meta::go:group-tokens-guarded', good, 'GroupStart/GroupEnd are emitted only when the no-nesting flag is false: %s' % good, where=b.where(), cfg=cfg)
+    # ... and what was pushed stays: the list of help items only grows while the meta is walked (taking entries out again - a filter over
+    # the collected tail, say - drops the end marker of a group and leaves its start behind)
+    shrink = []
+    for x in fs.family(ctx.look(fs.one(r'HelpItems<.*>::append_meta$|HelpItems::<.*>::append_meta$'))) + fs.family(b):
+        for c in x.calls():
+            if c.is_(r'Vec::<.*>::(split_off|drain|retain|retain_mut|remove|swap_remove|truncate|pop|clear|dedup\w*|sort\w*|reverse|splice|insert)$', r'slice::<impl \[T\]>::(sort\w*|reverse|swap|rotate\w*)$') and 'HelpItem' in c.full:
+                shrink.append('%s at %s' % (short(c.name), x.where(c.bb)))
+    ctx.ob('G.group-flag', 'append_meta:items-only-appended', not shrink, 'append_meta never removes or reorders collected help items: %s' % (sorted(set(shrink)) or 'ok'), where=b.where(), cfg=cfg)
 
 EFFECTS = [(r'^std::env::', 'env'), (r'^std::process::', 'process'), (r'^std::fs::', 'fs'), (r'^std::time::|^std::thread::', 'time/thread'),
            (r'^std::io::(stdin|stdout|stderr|_print|_eprint)', 'io'), (r'^std::net::', 'net'), (r'^supports_color::', 'terminal')]
